@@ -151,6 +151,23 @@ def run(algo, X, rank, cfg, n_iter_max, tol=None):
 def _run_t(algo, X, rank, cfg, n_iter_max, tol=None):
     import tensorly as tl
 
+    if cfg.get("mttkrp") == "memory":
+        # the documented way to switch to the memory-efficient MTTKRP (register_backend_method); undone afterwards - it is process-global
+        from tensorly.tenalg.core_tenalg.mttkrp import unfolding_dot_khatri_rao_memory
+
+        cfg = {k: v for k, v in cfg.items() if k != "mttkrp"}
+        cls = type(tl.tenalg.current_backend())
+        name = "unfolding_dot_khatri_rao"
+        saved = cls.__dict__.get(name)
+        tl.tenalg.register_backend_method(name, unfolding_dot_khatri_rao_memory)
+        try:
+            return _run_t(algo, X, rank, cfg, n_iter_max, tol)
+        finally:
+            if saved is not None:
+                setattr(cls, name, saved)
+            else:
+                delattr(cls, name)
+
     if "tenalg" in cfg:
         cfg = dict(cfg)
         name = cfg.pop("tenalg")
